@@ -1685,3 +1685,164 @@ Proof.
     - rewrite Hp. cbn [pcx]. unfold gmode. rewrite Ew, Hc, andb_false_r. cbn. lia. }
   split; [exact Hx|]. apply (excl_invariant_l cf progs s t u HR Hx Hne).
 Qed.
+
+(* ================================================================== *)
+(* C20 (wrapper part): throwing user code                                *)
+(* User code = the modify / read functor and WPay's copy construction / assignment (MCall steps);      *)
+(* the throw plan is part of cf, so every theorem above already holds for every throw plan.            *)
+(* ================================================================== *)
+(* the throwing invocation itself: nothing changes but the invocation counter; a whole-object operation
+   goes to the destructor of its guard (the only lock object in scope) with the exception pending *)
+Lemma wr_throw_step cf t c g pr sl fr fid snap rest ph r ok :
+  existsb (Nat.eqb (calls g)) (throws cf) = true ->
+  tstep cf t c g (Loc pr (Run fr (MCall fid snap :: rest) ph r ok) sl) =
+  Some (set_calls g (S (calls g)),
+        Loc pr (match fr with FGuard o gid => GRel o gid 0 true | FUse _ => Idle end) sl,
+        [E K_CALL 0 fid; E K_THROW 0 (Z.of_nat (calls g))] ++
+        match fr with FGuard _ _ => [] | FUse _ => [catch_ev] end).
+Proof.
+  intros Ht. unfold tstep. cbn [at_ slots prog]. unfold exec_mi. rewrite Ht. cbn [m_thrown m_g m_ev].
+  destruct fr; reflexivity.
+Qed.
+Lemma wr_throw_payload_untouched g n :
+  val (set_calls g n) = val g /\ dirty (set_calls g n) = dirty g /\ readers (set_calls g n) = readers g /\
+  owrites (set_calls g n) = owrites g /\ incrs (set_calls g n) = incrs g /\
+  owner (set_calls g n) = owner g /\ sharers (set_calls g n) = sharers g.
+Proof. repeat split. Qed.
+
+Lemma acquire_not_catch am sm t c g g' ok e : acquire am sm t c g = Some (g', ok, e) -> e <> catch_ev.
+Proof.
+  unfold acquire. destruct am; destruct (obtainable sm g); try destruct (Nat.eqb c 2); cbn; intros H; inversion H; subst;
+    destruct sm; intros E0; inversion E0.
+Qed.
+Lemma release_ev sm t i g g' e : release sm t i g = (g', e) -> e = E (k_rel sm) O_MTX 0.
+Proof. unfold release. intros H; inversion H; reflexivity. Qed.
+Lemma exec_mi_not_catch cf t i ph r ok g : ~ In catch_ev (m_ev (exec_mi cf t i ph r ok g)).
+Proof.
+  unfold exec_mi, rd_begin, rd_end, wr_begin, wr_end. intros Hc.
+  destruct i as [fid snap| |tg s0| |e d]; [| destruct ph | destruct tg; destruct ph | destruct ph as [|[|[|ph]]] | destruct ph];
+    cbn in Hc;
+    repeat match type of Hc with
+           | context [if ?x then _ else _] => destruct x; cbn in Hc
+           | context [match ?x with _ => _ end] => destruct x; cbn in Hc
+           end;
+    repeat (destruct Hc as [Hc|Hc]; try (inversion Hc; fail)); auto.
+Qed.
+
+(* K_CATCH is emitted only by the destructor step of a guard with an exception pending
+   (and by the - unreachable - throwing call of an access through a handle) *)
+Lemma catch_only_from cf t c g l g' l' es : tstep cf t c g l = Some (g', l', es) -> In catch_ev es ->
+  (exists o gid rv, at_ l = GRel o gid rv true) \/ (exists a code ph r ok, at_ l = Run (FUse a) code ph r ok).
+Proof.
+  intros Hs Hc. destruct l as [pr p sl]. destruct p; cbn [at_]; try (right; repeat eexists; fail).
+  all: try (exfalso; step_cases Hs;
+            repeat match goal with
+            | H : acquire _ _ _ _ _ = Some _ |- _ => apply acquire_not_catch in H
+            | H : release _ _ _ _ = _ |- _ => apply release_ev in H; subst
+            end;
+            cbn [In] in Hc; repeat (destruct Hc as [Hc|Hc]); try contradiction; try congruence;
+            try (inversion Hc; fail); try (destruct (_ && _); inversion Hc; fail); fail).
+  - (* Run *) destruct fr as [o gid|a]; [exfalso|right; repeat eexists].
+    step_cases Hs; try (eapply exec_mi_not_catch; eauto; fail).
+  - (* GRel *) destruct exn; [left; eauto|exfalso].
+    step_cases Hs. match goal with H : release _ _ _ _ = _ |- _ => apply release_ev in H; subst end.
+    destruct (_ && shcap cf); cbn in Hc; repeat (destruct Hc as [Hc|Hc]; try (inversion Hc; fail)); auto.
+Qed.
+
+(* the step that ends an operation with K_CATCH is the destructor of the operation's guard: it releases
+   the mutex (one unlock event, the guard's acquisition number goes to the release log) and leaves the
+   thread at top level owning nothing but what its live handles own *)
+Lemma wr_exn_no_lock_left cf progs s t c l g' l' es :
+  R cf progs s -> nth_error (thr s) t = Some l -> tstep cf t c (gl s) l = Some (g', l', es) -> In catch_ev es ->
+  at_ l' = Idle /\ slots l' = slots l /\
+  lx cf l' = cnt (hx cf) (slots l) /\ lsh cf l' = cnt (hs cf) (slots l) /\
+  ((exists o gid rv gsh code, at_ l = GRel o gid rv true /\ wop_code cf o = Some (gsh, code) /\
+      es = [E (k_rel (gsh && shcap cf)) O_MTX 0; catch_ev] /\ released g' = gid :: released (gl s)) \/
+   (exists a code ph r ok, at_ l = Run (FUse a) code ph r ok)).
+Proof.
+  intros HR Hl Hs Hc.
+  destruct (catch_only_from _ _ _ _ _ _ _ _ Hs Hc) as [[o [gid [rv Hp]]]|[a [code [ph [r [ok Hp]]]]]];
+    destruct l as [pr p sl]; cbn [at_ slots] in *; subst p.
+  - unfold tstep in Hs. cbn [at_ slots prog] in Hs.
+    destruct (wop_code cf o) as [[gsh code]|] eqn:Ew; [|discriminate].
+    destruct (release (gsh && shcap cf) t gid (gl s)) as [g1 e] eqn:Er. inversion Hs; subst.
+    pose proof (release_ev _ _ _ _ _ _ Er) as ->. rewrite (release_eq _ _ _ _ _ _ Er).
+    unfold lx, lsh. cbn [at_ slots pcx pcs]. repeat split; auto.
+    left. exists o, gid, rv, gsh, code. repeat split; auto. destruct (gsh && shcap cf); reflexivity.
+  - assert (at_ l' = Idle /\ slots l' = sl) as [E1 E2].
+    { unfold tstep in Hs. cbn [at_ slots prog] in Hs. destruct code as [|i rest]; [discriminate|].
+      destruct (m_thrown _); [inversion Hs; auto|].
+      destruct (negb (m_done _)).
+      - inversion Hs; subst. exfalso. eapply exec_mi_not_catch; eauto.
+      - destruct (match m_rest _ with Some c' => c' | None => rest end); inversion Hs; subst; auto.
+        exfalso. eapply exec_mi_not_catch; eauto. }
+    destruct l' as [pr' p' sl']. cbn [at_ slots] in *. subst. unfold lx, lsh. cbn [at_ slots pcx pcs].
+    repeat split; auto. right. repeat eexists.
+Qed.
+
+(* afterwards the wrapper is usable: the new state is reachable (every theorem above applies to it, whatever
+   the throw plan - no_deadlock_shape, excl_invariant, ...), and a thread that keeps no handle holds the mutex
+   in no mode; if its guard was exclusive the mutex has no exclusive owner *)
+Lemma wr_exn_usable cf progs s t c l g' l' es :
+  R cf progs s -> nth_error (thr s) t = Some l -> tstep cf t c (gl s) l = Some (g', l', es) -> In catch_ev es ->
+  R cf progs (step glob loc (tstep cf) s (t, c)) /\
+  (~ holds_in_slots cf l -> owner g' <> Some t /\ ~ In t (sharers g')) /\
+  (forall o gid rv, at_ l = GRel o gid rv true -> gmode cf o = false -> owner g' = None).
+Proof.
+  intros HR Hl Hs Hc. pose proof (R_step cf progs s (t, c) HR) as HR'.
+  split; [exact HR'|].
+  destruct (wr_exn_no_lock_left _ _ _ _ _ _ _ _ _ HR Hl Hs Hc) as [_ [_ [Ex [Es _]]]].
+  assert (Hst : step glob loc (tstep cf) s (t, c) = Sys g' (upd (thr s) t l')).
+  { unfold step, sys_step. rewrite Hl, Hs. reflexivity. }
+  rewrite Hst in HR'. destruct (R_inv1 _ _ _ HR') as [_ IX IS _]. cbn [gl thr] in *.
+  specialize (IX t). specialize (IS t). rewrite (locof_upd _ _ _ _ _ Hl), Nat.eqb_refl in IX, IS.
+  split.
+  - intros Hh. unfold holds_in_slots in Hh. split.
+    + intros Ho. unfold own1 in IX. rewrite Ho, Nat.eqb_refl in IX. cbn in IX. lia.
+    + intros Hin. unfold shc in IS. apply (count_occ_In Nat.eq_dec) in Hin. lia.
+  - intros o gid rv Hp Hg. destruct l as [pr p sl]. cbn [at_] in Hp. subst p.
+    unfold tstep in Hs. cbn [at_ slots prog] in Hs. unfold gmode in Hg.
+    destruct (wop_code cf o) as [[gsh code]|] eqn:Ew; [|discriminate]. rewrite Hg in Hs.
+    unfold release in Hs. inversion Hs; subst. reflexivity.
+Qed.
+
+(* what the payload is after a throw: in every operation body every user-code invocation precedes every
+   write of the wrapped object, so an operation that throws has not modified it (exchange: only the private
+   temporary was assigned; compare_exchange: `expected` is not updated either) *)
+Definition writes_obj (i : mi) : bool := match i with MWrite Obj _ | MIncr => true | _ => false end.
+Definition is_call (i : mi) : bool := match i with MCall _ _ => true | _ => false end.
+Fixpoint calls_first (code : list mi) : bool :=
+  match code with
+  | [] => true
+  | i :: r => (if writes_obj i then negb (existsb is_call r) else true) && calls_first r
+  end.
+Lemma wr_exn_calls_first cf o gsh code : wop_code cf o = Some (gsh, code) ->
+  calls_first code = true /\ (forall e d ok, o = Cas e d -> calls_first (cas_branch ok d) = true).
+Proof.
+  unfold wop_code. intros H. split.
+  - destruct o; try discriminate; destruct (flav cf); cbn in H; inversion H; reflexivity.
+  - intros e d ok _. destruct ok; reflexivity.
+Qed.
+(* with the exception pending the payload is not half-written and nobody is inside a modification *)
+Lemma wr_exn_state cf progs s t l o gid rv exn : R cf progs s -> safe cf (gl s) ->
+  nth_error (thr s) t = Some l -> at_ l = GRel o gid rv exn ->
+  dirty (gl s) = false /\ (forall u, wropen (at_ (locof (thr s) u)) = false) /\
+  forall c, exists g' l' e, tstep cf t c (gl s) l = Some (g', l', [e; if exn then catch_ev else ret_ev rv]) /\
+                            val g' = val (gl s) /\ dirty g' = false /\ at_ l' = Idle.
+Proof.
+  intros HR Hs Hl Hp. destruct (R_inv _ _ _ HR) as [H1 H2].
+  destruct (I_ok _ _ _ H1 _ _ Hl) as [_ Hpc]. rewrite Hp in Hpc.
+  assert (Hlk : (1 <= lx cf (locof (thr s) t) + lsh cf (locof (thr s) t))%nat).
+  { rewrite (locof_at _ _ _ Hl). unfold lx, lsh. rewrite Hp. cbn [pcx pcs]. destruct (gmode cf o); cbn; lia. }
+  assert (Hd : dirty (gl s) = false).
+  { apply (covered_clean cf _ _ t H1 H2 Hs Hlk). rewrite (locof_at _ _ _ Hl), Hp. reflexivity. }
+  split; [exact Hd|]. split.
+  - intros u. destruct (wropen (at_ (locof (thr s) u))) eqn:E; [|reflexivity]. exfalso.
+    destruct (wropen_run _ E) as [fr [i [rest [ph [r [ok [Hq Hro]]]]]]].
+    assert (u <> t) as Hne by (intros ->; rewrite (locof_at _ _ _ Hl), Hp in Hq; discriminate).
+    destruct (I_cov _ _ _ H2 Hs u _ _ _ _ _ Hq) as [Hx|[_ Hn]]; [|cbn in Hn; rewrite Hro in Hn; discriminate].
+    destruct (excl_locks cf _ _ u t H1 Hne ltac:(lia)). lia.
+  - intros c. destruct l as [pr p sl]. cbn [at_] in Hp. subst p. unfold tstep. cbn [at_ slots prog].
+    destruct (wop_code cf o) as [[gsh code]|] eqn:Ew; [|congruence].
+    unfold release. eexists _, _, _. split; [reflexivity|]. destruct (gsh && shcap cf); cbn; auto.
+Qed.
